@@ -43,6 +43,12 @@ func c18Inputs(tier string) []c18Input {
 	ins = append(ins, c18Input{Name: "three-errors", Text: "a:\n  nosep\n  q: abc\n  alsonosep\nb:\n  y: 1\n", FailAt: -1})
 	ins = append(ins, c18Input{Name: "error-in-last-line-no-newline", Text: "a:\n  x: 1\n  nosep", FailAt: -1})
 	ins = append(ins, c18Input{Name: "error-first-entry", Text: "a:\n  nosep\n", FailAt: -1})
+	var bigIn strings.Builder
+	for r := 0; r < 160; r++ {
+		bigIn.WriteString(fmt.Sprintf("rec%03d:\n  element/%d: %d\n  second %d: 1\n", r, r, r, r))
+	}
+	ins = append(ins, c18Input{Name: "160-records-6KB", Text: bigIn.String(), FailAt: -1})
+	ins = append(ins, c18Input{Name: "160-records-then-error", Text: bigIn.String() + "last:\n  nosep\n", FailAt: -1})
 	// unreadable
 	ins = append(ins, c18Input{Name: "nonexistent-file", File: "/nonexistent/verif/file.yaml", FailAt: -1})
 	ins = append(ins, c18Input{Name: "directory-as-file", File: os.TempDir(), FailAt: -1})
@@ -114,6 +120,7 @@ func c18RunModel(x *Exec, in c18Input, policy int) c18Obs {
 		}
 		o.ProducerDone = true
 	})
+	var kept []*shared.ParserNode
 	s.Go("consumer", func() {
 		// the documented receive loop (parser/example_test.go, TestParseWg), with the
 		// select expressed through the scheduler
@@ -121,8 +128,9 @@ func c18RunModel(x *Exec, in c18Input, policy int) c18Obs {
 			i, v, _ := s.Select(selCase{Ch: p.Nodes}, selCase{Ch: p.Errors}, selCase{Ch: p.Done})
 			switch i {
 			case 0:
-				n := v.(*shared.ParserNode)
-				o.Events = append(o.Events, "node:"+n.Header+fmt.Sprint(n.Elements))
+				// the consumer keeps the node and looks at it only when the stream is over
+				kept = append(kept, v.(*shared.ParserNode))
+				o.Events = append(o.Events, fmt.Sprintf("node#%d", len(kept)-1))
 			case 1:
 				o.Events = append(o.Events, "error:"+v.(error).Error())
 				if policy == 0 {
@@ -137,6 +145,13 @@ func c18RunModel(x *Exec, in c18Input, policy int) c18Obs {
 		}
 	})
 	s.Run()
+	for i, e := range o.Events {
+		if strings.HasPrefix(e, "node#") {
+			var k int
+			fmt.Sscanf(e, "node#%d", &k)
+			o.Events[i] = "node:" + kept[k].Header + fmt.Sprint(kept[k].Elements)
+		}
+	}
 	o.Deadlock = s.Deadlock
 	o.Parked = s.ParkedAtEnd()
 	o.Trace = s.Trace
@@ -158,12 +173,24 @@ func c18RunReal(in c18Input, policy int, limit time.Duration) (events []string, 
 		}
 	}()
 	done := make(chan []string, 1)
+	var keptReal []*shared.ParserNode
+	fix := func(ev []string) []string {
+		for i, e := range ev {
+			if strings.HasPrefix(e, "node#") {
+				var k int
+				fmt.Sscanf(e, "node#%d", &k)
+				ev[i] = "node:" + keptReal[k].Header + fmt.Sprint(keptReal[k].Elements)
+			}
+		}
+		return ev
+	}
 	go func() {
 		var ev []string
 		for {
 			select {
 			case n := <-p.Nodes:
-				ev = append(ev, "node:"+n.Header+fmt.Sprint(n.Elements))
+				keptReal = append(keptReal, n)
+				ev = append(ev, fmt.Sprintf("node#%d", len(keptReal)-1))
 			case err := <-p.Errors:
 				ev = append(ev, "error:"+err.Error())
 				if policy == 0 {
@@ -179,7 +206,7 @@ func c18RunReal(in c18Input, policy int, limit time.Duration) (events []string, 
 	}()
 	select {
 	case ev := <-done:
-		return ev, true
+		return fix(ev), true
 	case <-time.After(limit):
 		return nil, false
 	}
